@@ -401,6 +401,7 @@ pub fn expect_tag(exp: &mut Expected, p: &str, region: &[u8], it: &Item, kind: u
                         exp.either(format!("{q}.~end"), sum_or_panic(ent.addr, ent.size));
                         exp.any(format!("{q}.len_after"));
                         exp.if_present(format!("{q}.rel"), Val::B(true));
+                        exp.if_present(format!("{q}.rel_twins"), Val::B(true));
                         if names {
                             exp.is(format!("{q}.name"), crate::elfnames::model_name(le32(b, at)));
                         }
